@@ -2,10 +2,10 @@ package exec
 
 import (
 	"fmt"
-	"os"
-	"runtime/debug"
 	"go/token"
 	"go/types"
+	"os"
+	"runtime/debug"
 	"strings"
 
 	"golang.org/x/tools/go/ssa"
